@@ -27,6 +27,17 @@ seq("C10", "Explicit-state model checking of the real BTree: BFS to a fixpoint o
 seq("C19", "Explicit-state model checking of the real SList and DList: BFS to a fixpoint over Unshift/Append/Shift/Pop/InsertAfter/InsertBefore/Delete/Replace addressed by position (handle from Find immediately before use) with fresh values; the state key renames values by first occurrence (data independence: the lists only apply == to values), which makes the capped space finite; Each/First/Last/Find are compared with a slice model in every state, observers must leave the heap graph unchanged, a cyclic next chain is detected by reflection and a watchdog turns non-termination into a finding. A second family with repeated values checks first-occurrence semantics of Replace/Find.",
     "explicit-state BFS over real method calls vs slice model, to fixpoint under value renaming", "DESIGN.md §3 C19")
 
+ENUM_NOTE = ("Trusted: Go compiler/runtime; the quadratic reference implementations in props/pure written from the property statement. "
+             "Scope: the argument shapes, lengths and alphabets stated in the evidence file; values outside them are not covered.")
+def enum(pid, text, ref):
+    checks[pid] = dict(engine="enum", text=text, technique="exhaustive small-scope input enumeration on the real helpers vs reference definitions (plus every map iteration order / rand answer via source-level seams)", ref=ref, note=ENUM_NOTE)
+enum("C11", "Exhaustive bounded enumeration: every slice up to length 5 (6 thorough) over a 3-4 value alphabet (ints, strings, floats), every pair and every triple of short slices, every key function from a finite family and every nesting of the Union grammar up to depth 2-3 including malformed variants, each run on the real helper and compared with a quadratic reference written from the statement; Duplicate/DuplicateWithIndex under every map iteration order.", "DESIGN.md §3 C11")
+enum("C12", "Exhaustive bounded enumeration: every slice up to length 7 (8) over 3 values x every chunk size 1..8, drop count -9..9, predicate and key function of a finite family; every matrix up to 3x3 over 2 values incl. ragged ones for Zip/Unzip; every nesting for Flatten; every tuple of <=3 short slices for Merge; every rune string up to length 4 for ReverseStr; Shuffle under every math/rand answer (all n! draw sequences). Oracles are the identities of the statement as executable predicates.", "DESIGN.md §3 C12")
+enum("C13", "Exhaustive bounded enumeration: every slice up to length 6 over 3 values with every probe value and every index in -(len+3)..len+3; all 2^24 int8 triples for Clamp/InRange and all int8 for Abs; every (start,step,end) in [-10,10]^3 plus the 0/1/2/4-argument forms for Range/RangeRight; every collection of <=2 (3) small maps for the ByKey variants incl. the empty slice; floats and strings for the aggregates. Every call runs under recover.", "DESIGN.md §3 C13")
+enum("C14", "Exhaustive bounded enumeration: every map with <=3 (4) entries over 4 keys x 3 values, every key list up to length 3 and every predicate/transformation of a finite family, every collection of <=2 (3) maps of a sub-family; every helper that ranges over a map is executed under every iteration order of that map (source-level seam), and results whose order/choice is unspecified are compared as sets or by their defining property.", "DESIGN.md §3 C14")
+enum("C15", "Exhaustive bounded enumeration: every string of <=4 (5) runes over an alphabet mixing ASCII, a 2-byte rune and token characters x every byte offset/length/index/size in a window of +-3 around the length x every pad/wrap token of length <=2; Unicode case mapping on runes with non-trivial mappings; case styles on every 1-3 word string over 7 words x separator runs. Oracles: PHP byte rules for Substr, concatenation/length/position identities, Unwrap(Wrap)=id, rune-wise unicode mapping, letter conservation/idempotence for the case styles.", "DESIGN.md §3 C15")
+enum("C16", "Exhaustive bounded enumeration of aliasing: each of ~60 slice helpers x every slice up to length 4 (5) over 3 values placed in a backing array with sentinels before it and spare capacity {0,1,4} with sentinels after it — the whole backing array is compared before/after; every ORDERED PAIR of helpers on one shared argument (earlier result snapshot vs after the later call, with the principled exemption for results that are views by contract); the same for ~24 map helpers over every map with <=3 entries.", "DESIGN.md §3 C16")
+
 not_built = {}  # property -> reason (kept current while the framework is being built)
 props = [json.loads(l)["id"] for l in open(os.path.join(ROOT, "properties.jsonl"))]
 for p in props:
@@ -46,6 +57,8 @@ m = {
     "engines": [
         {"name": "seqmc", "path": "seqmc/ props/seq/", "serves_properties": [p for p in props if p in checks and checks[p]["engine"] == "seqmc"],
          "kind_free_text": "explicit-state breadth-first model checker; transition function is the real method call (successor = replay on a fresh instance + 1 op); state key = canonical reflection dump of the object's private heap graph paired with the reference model"},
+        {"name": "enum", "path": "enum/ props/pure/", "serves_properties": [p for p in props if p in checks and checks[p]["engine"] == "enum"],
+         "kind_free_text": "exhaustive small-scope enumeration of argument tuples against reference definitions; internal nondeterminism of the helpers (map iteration order, math/rand) is turned into enumerated choice points by source rewriting (vinstr overlay)"},
     ],
     "checks": [],
     "notes": "All checks: ./run.sh <ID> <tier>; exit 0 held / 1 VIOLATION / 2 machinery failure. Known findings: known-findings.jsonl. Replays: ./run.sh replay <file>.",
